@@ -1376,6 +1376,13 @@ class _TreeItems:
                 self.v = next(self.it)
             except StopIteration:
                 raise IndexError(i)
+            except BaseException:
+                # A generator that has raised is finished: start over at
+                # the next access instead of answering IndexError for
+                # positions that do exist.
+                self.index = -1
+                self.it = iter(self)
+                raise
             else:
                 self.index += 1
         return self.v
